@@ -17,6 +17,7 @@ func (w *World) chanSend(g *G, ch *ChanObj, v Value, fin func()) {
 	op := &syncOp{desc: "chan send", chans: []*ChanObj{ch}}
 	op.ready = func() bool { return ch.closed || len(ch.buf) < ch.cap }
 	op.exec = func() {
+		w.touch(ch.id, true)
 		if ch.closed {
 			w.goPanic(g, "send on closed channel", nil)
 			return
@@ -38,6 +39,7 @@ func (w *World) chanRecv(g *G, ch *ChanObj, commaOk bool, fin func(Value)) {
 	op := &syncOp{desc: "chan recv", chans: []*ChanObj{ch}}
 	op.ready = func() bool { return ch.closed || len(ch.buf) > 0 }
 	op.exec = func() {
+		w.touch(ch.id, true)
 		var v Value
 		ok := true
 		if len(ch.buf) > 0 {
@@ -63,6 +65,7 @@ func (w *World) chanClose(g *G, ch *ChanObj, fin func()) {
 	}
 	op := &syncOp{desc: "chan close", ready: func() bool { return true }}
 	op.exec = func() {
+		w.touch(ch.id, true)
 		if ch.closed {
 			w.goPanic(g, "close of closed channel", nil)
 			return
@@ -130,6 +133,9 @@ func (w *World) execSelect(g *G, fr *Frame, i *ssa.Select) {
 	op := &syncOp{desc: "select", chans: chans}
 	op.ready = func() bool { return !i.Blocking || len(enabled()) > 0 }
 	op.exec = func() {
+		for _, c := range chans {
+			w.touch(c.id, true)
+		}
 		en := enabled()
 		if len(en) == 0 {
 			finish(-1, false, nil)
